@@ -20,7 +20,7 @@ import ast
 import os
 import sys
 
-REPO = "/repo"
+REPO = os.environ.get("VERIF_REPO", "/repo")   # (override only used by tools/seed_matrix.sh to test seeded copies in a scratch worktree)
 FILES = [
     "coxeter/shapes/base_classes.py", "coxeter/shapes/circle.py", "coxeter/shapes/ellipse.py", "coxeter/shapes/sphere.py",
     "coxeter/shapes/ellipsoid.py", "coxeter/shapes/polygon.py", "coxeter/shapes/convex_polygon.py",
